@@ -101,7 +101,7 @@ Proof.
   assert (Hdebts : forall z, debts z (with_thr s t (mkThr stk' todo' prog) h' (s_pool s)) + eq1 o z = debts z s).
   { intros z. pose proof (wt_debts s t (mkThr stk' todo' prog) h' (s_pool s) z Ht) as HD. rewrite E in HD.  rewrite td_cons, td_mk in HD. cbn [act_debt] in HD. lia. }
   (* the tail of the todo list and its shape *)
-  assert (Htail : (exists l, todo' = [AStore l (Some (o, true))]) \/ (exists l, todo' = [AUnref l; AStore l (Some (o, true))])).
+  assert (Htail : (exists l, todo' = [AStore l (Some (o, true))]) \/ (exists l, todo' = [ATake l; AStore l (Some (o, true))])).
   { inversion Hsh as [fr Hf Ef|fr l v Hf Ef|q sr l Ef|q sr l Ef|l Ef|l v Ef|a Ha Ef]; subst.
     - cbn in Hf. discriminate.
     - destruct fr as [|f fr]; cbn in Ef; [discriminate|]. inversion Ef; subst. cbn in Hf. discriminate.
@@ -116,7 +116,7 @@ Proof.
     eqcase z o; auto.
   - intros z Hz. unfold h' in Hz. rewrite upd_length in Hz. rewrite hobj_wt, Hget. pose proof (i_mem K s I z Hz) as HM. unfold hobj in HM.
     eqcase z o; auto.
-  - cbn. destruct Htail as [(l & ->)|(l & ->)]; [apply (sh_store [] l)|apply sh_unref2]; reflexivity.
+  - cbn. destruct Htail as [(l & ->)|(l & ->)]; [apply (sh_store [] l)|apply sh_take2]; reflexivity.
   - (* own remaining actions *)
     cbn [t_todo t_stk]. intros a Hin.
     assert (Hold : act_ok s stk' a) by (apply (ctx_act _ _ _ _ _ _ a C); right; auto).
@@ -142,6 +142,310 @@ Proof.
     eqcase z o; [fold ob in HI; change (is_releasing (set_cnt ob (S (o_cnt ob)))) with (is_releasing ob)|]; lia.
   - intros z Hz. unfold h' in Hz. rewrite upd_length in Hz. rewrite hobj_wt, Hget. pose proof (i_ghost K s I z Hz) as HG. unfold hobj in HG.
     eqcase z o; auto.
+Qed.
+
+(* ------------------------------------------------------------------ slot writes (ATake, AUntag, AStore) *)
+
+Lemma frames_rel_ok_same : forall s s' stk a, is_frame a = true ->
+  (forall o n, a = ARel o n -> o_st (hobj s' o) = o_st (hobj s o) /\ o_mem (hobj s' o) = o_mem (hobj s o) /\ o_pooled (hobj s' o) = o_pooled (hobj s o)) ->
+  act_ok s stk a -> act_ok s' stk a.
+Proof.
+  intros s s' stk a Hf H W. destruct a; cbn in Hf; try discriminate; cbn in *; auto.
+  destruct (H o n eq_refl) as (H1 & H2 & H3). destruct W as (W1 & W2 & W3).
+  unfold is_releasing, processed_none, rel_index in *. rewrite H1, H2, H3. auto.
+Qed.
+
+Lemma frame_ok_any_stk : forall s stk stk' a, is_frame a = true -> act_ok s stk a -> act_ok s stk' a.
+Proof. intros s stk stk' a Hf W. destruct a; cbn in Hf; try discriminate; cbn in *; auto. Qed.
+
+Lemma rest_kinds : forall a rest, shape (a :: rest) ->
+  forall b, In b rest -> is_frame b = true \/ (exists l v, b = AStore l v) \/ (exists l, b = ATake l).
+Proof.
+  intros a rest H b Hin. remember (a :: rest) as td eqn:Etd.
+  destruct H as [fr Hf|fr l v Hf|q src l|q src l|l|l v|x Hx].
+  - left. rewrite forallb_forall in Hf. apply Hf. rewrite Etd. right; auto.
+  - assert (Hb : In b (fr ++ [AStore l v])) by (rewrite Etd; right; auto).
+    apply in_app_or in Hb. destruct Hb as [Hb|[Hb|[]]].
+    + left. rewrite forallb_forall in Hf. auto.
+    + right; left. eauto.
+  - inversion Etd; subst. destruct Hin as [<-|[]]. right; left; eauto.
+  - inversion Etd; subst. destruct Hin as [<-|[<-|[]]]; [right; right; eauto|right; left; eauto].
+  - inversion Etd; subst. destruct Hin.
+  - inversion Etd; subst. destruct Hin as [<-|[]]. right; left; eauto.
+  - inversion Etd; subst. destruct Hin.
+Qed.
+
+Lemma two_rels : forall s t o n m rest, inv1 K s -> t < length (s_thr s) ->
+  t_todo (thr s t) = ARel o n :: rest -> In (ARel o m) rest -> False.
+Proof.
+  intros s t o n m rest I Ht E Hin. pose proof (i_rels K s I o) as HR. unfold rels in HR.
+  pose proof (sumf_nth_le _ (fun t => sumf (rel_count o) (t_todo t)) (s_thr s) t dthr Ht) as Hle. cbn beta in Hle.
+  unfold thr in E. rewrite E in Hle. rewrite rc_cons in Hle. pose proof (in_todo_rel o _ _ Hin) as A.
+  cbn in A, Hle. unfold eq1 in A, Hle. rewrite Nat.eqb_refl in A, Hle. destruct (is_releasing (hobj s o)); lia.
+Qed.
+
+(* why thread t, whose next action is a, may write slot l *)
+Definition wjust (s : state) (stk : list ref) (a : act) (l : rloc) : Prop :=
+  match l with
+  | RStk i => i < length stk
+  | RMem q j => j < length (o_mem (hobj s q)) /\
+                ((o_cnt (hobj s q) = 1 /\ exists i, nth i stk None = Some (q, true)) \/ (exists n, a = ARel q n))
+  end.
+
+Lemma wloc_wjust : forall s stk a l, wloc_ok (s_heap s) stk l -> wjust s stk a l.
+Proof. intros s stk a [i|q j] W; cbn in *; auto. destruct W as (W1 & W2 & W3). split; auto. Qed.
+
+(* the core: thread t overwrites slot l (which it may write) with v; the credits held in its todo
+   list change so that the total is conserved *)
+Lemma write_core : forall s t stk a rest prog l v todo',
+  ctx s t stk a rest prog ->
+  wjust s stk a l ->
+  (forall z, cref z v + sumf (act_unit z) todo' = cref z (read_slot (s_heap s) stk l) + act_unit z a + sumf (act_unit z) rest) ->
+  (forall z, sumf (act_debt z) todo' = act_debt z a + sumf (act_debt z) rest) ->
+  (forall z, sumf (rel_count z) todo' = rel_count z a + sumf (rel_count z) rest) ->
+  shape todo' ->
+  (match l with RStk _ => forall b y j, In b rest -> (exists v', b = AStore (RMem y j) v') \/ b = ATake (RMem y j) -> False | RMem _ _ => True end) ->
+  forall h1 stk1, write_slot (s_heap s) stk l v = (h1, stk1) ->
+  (forall b, In b todo' -> In b rest \/ act_ok (with_thr s t (mkThr stk1 todo' prog) h1 (s_pool s)) stk1 b) ->
+  inv1 K (with_thr s t (mkThr stk1 todo' prog) h1 (s_pool s)).
+Proof.
+  intros s t stk a rest prog l v todo' C W Bu Bd Br Hsh Hsame h1 stk1 Hw Hown.
+  pose proof C as [I Ht E].
+  assert (Estk : t_stk (thr s t) = stk) by (rewrite E; auto).
+  assert (Etodo : t_todo (thr s t) = a :: rest) by (rewrite E; auto).
+  (* the heap after the write, object by object *)
+  assert (Hheap : exists wq : nat -> bool,
+            (forall z, get_obj h1 z = if wq z then set_mem (get_obj (s_heap s) z) (o_mem (get_obj h1 z)) else get_obj (s_heap s) z) /\
+            (forall z, wq z = true -> touch_m s t z /\ (is_live (hobj s z) = true \/ exists n, a = ARel z n)) /\
+            length h1 = length (s_heap s) /\
+            (forall z, length (o_mem (get_obj h1 z)) = length (o_mem (get_obj (s_heap s) z))) /\
+            (forall z, refs_in z stk1 + sumf (obj_units z) h1 + cref z (read_slot (s_heap s) stk l)
+                       = refs_in z stk + sumf (obj_units z) (s_heap s) + cref z v) /\
+            (match l with RStk _ => True | RMem _ _ => stk1 = stk end) /\ length stk1 = length stk).
+  { destruct l as [i|q j]; cbn in Hw, W |- *; injection Hw as Eh Es; subst h1 stk1.
+    - exists (fun _ => false). repeat split; auto; try discriminate.
+      + intros z. pose proof (refs_in_upd z stk i v W). lia.
+      + apply upd_length.
+    - destruct W as (Wj & Wc).
+      assert (Hq : q < length (s_heap s)).
+      { destruct Wc as [(Wc & (i & Wi))|(n & ->)].
+        - rewrite <- Estk in Wi. destruct (held_live K s t i q I Ht Wi) as (Hlv & _). apply live_lt in Hlv; auto.
+        - pose proof (ctx_act _ _ _ _ _ _ (ARel q n) C (or_introl eq_refl)) as A. cbn in A. destruct A as (A & _).
+          apply releasing_lt in A; auto. }
+      exists (fun z => z =? q). split; [|split; [|split; [|split; [|split; [|split]]]]]; auto.
+      + intros z. destruct (z =? q) eqn:Ez.
+        * apply Nat.eqb_eq in Ez; subst z. rewrite get_upd_same by auto. reflexivity.
+        * apply Nat.eqb_neq in Ez. rewrite get_upd_other by auto. reflexivity.
+      + intros z Ez. apply Nat.eqb_eq in Ez; subst z. destruct Wc as [(Wc & (i & Wi))|(n & ->)].
+        * split; [left; split; auto; exists i; rewrite Estk; auto|].
+          left. rewrite <- Estk in Wi. destruct (held_live K s t i q I Ht Wi); auto.
+        * split; [right; exists n; rewrite Etodo; left; auto|]. right; eauto.
+      + apply upd_length.
+      + intros z. destruct (Nat.eq_dec z q) as [->|Hne].
+        * rewrite get_upd_same by auto. cbn. apply upd_length.
+        * rewrite get_upd_other by auto. auto.
+      + intros z. pose proof (heap_units_upd (s_heap s) q (set_mem (get_obj (s_heap s) q) (upd (o_mem (get_obj (s_heap s) q)) j v)) z Hq) as HH.
+        change (obj_units z (set_mem (get_obj (s_heap s) q) (upd (o_mem (get_obj (s_heap s) q)) j v)))
+          with (refs_in z (upd (o_mem (get_obj (s_heap s) q)) j v)) in HH.
+        change (obj_units z (get_obj (s_heap s) q)) with (refs_in z (o_mem (get_obj (s_heap s) q))) in HH.
+        pose proof (refs_in_upd z (o_mem (get_obj (s_heap s) q)) j v Wj). unfold get_obj in *. lia. }
+  destruct Hheap as (wq & Hget & Hwq & Hlen1 & Hlenm & Hbal & Hstk1 & Hlstk).
+  assert (Hcnt : forall z, o_cnt (get_obj h1 z) = o_cnt (get_obj (s_heap s) z) /\ o_st (get_obj h1 z) = o_st (get_obj (s_heap s) z) /\
+                           o_pooled (get_obj h1 z) = o_pooled (get_obj (s_heap s) z) /\ o_births (get_obj h1 z) = o_births (get_obj (s_heap s) z) /\
+                           o_deaths (get_obj h1 z) = o_deaths (get_obj (s_heap s) z)).
+  { intros z. rewrite (Hget z). destruct (wq z); cbn; auto. }
+  assert (Hunits : forall z, units z (with_thr s t (mkThr stk1 todo' prog) h1 (s_pool s)) = units z s).
+  { intros z. pose proof (wt_units s t (mkThr stk1 todo' prog) h1 (s_pool s) z Ht) as HU. rewrite E in HU.
+    rewrite tu_cons, tu_mk in HU. pose proof (Bu z). pose proof (Hbal z). lia. }
+  assert (Hdebts : forall z, debts z (with_thr s t (mkThr stk1 todo' prog) h1 (s_pool s)) = debts z s).
+  { intros z. pose proof (wt_debts s t (mkThr stk1 todo' prog) h1 (s_pool s) z Ht) as HD. rewrite E in HD.
+    rewrite td_cons, td_mk in HD. pose proof (Bd z). lia. }
+  assert (Hmemsame : forall z, wq z = false -> o_mem (get_obj h1 z) = o_mem (get_obj (s_heap s) z)).
+  { intros z Ez. rewrite (Hget z), Ez. auto. }
+  assert (Hnotrel : forall o n, In (ARel o n) rest -> wq o = false).
+  { intros o n Hr. destruct (wq o) eqn:Eo; auto. exfalso. destruct (Hwq o Eo) as (_ & [Hlv|(m & ->)]).
+    - pose proof (ctx_act _ _ _ _ _ _ (ARel o n) C (or_intror Hr)) as A. cbn in A. destruct A as (A & _).
+      unfold is_live, is_releasing in *. destruct (o_st (hobj s o)); discriminate.
+    - eapply (two_rels s t o m n rest); eauto. }
+  apply assemble; auto.
+  - intros z. rewrite Hunits, Hdebts, hobj_wt. destruct (Hcnt z) as (-> & _). apply (i_count K s I).
+  - intros z Hz. rewrite Hunits. apply (i_nolive K s I). rewrite hobj_wt in Hz. unfold is_live, hobj in *.
+    destruct (Hcnt z) as (_ & <- & _). auto.
+  - intros z Hz. rewrite Hlen1 in Hz. rewrite hobj_wt. destruct (i_mem K s I z Hz) as (M1 & M2). unfold hobj in *.
+    split; [rewrite Hlenm; auto|]. unfold quiet in *. destruct (Hcnt z) as (_ & -> & _).
+    destruct (wq z) eqn:Ez; [|rewrite (Hmemsame z Ez); auto].
+    destruct (Hwq z Ez) as (_ & [Hlv|(n & ->)]).
+    + unfold is_live, hobj in Hlv. destruct (o_st (get_obj (s_heap s) z)); auto; discriminate.
+    + pose proof (ctx_act _ _ _ _ _ _ (ARel z n) C (or_introl eq_refl)) as A. cbn in A. destruct A as (A & _).
+      unfold is_releasing, hobj in A. destruct (o_st (get_obj (s_heap s) z)); auto; discriminate.
+  - (* own pending actions *)
+    cbn [t_todo t_stk]. intros b Hin. destruct (Hown b Hin) as [Hr|Hok]; auto.
+    pose proof (ctx_act _ _ _ _ _ _ b C (or_intror Hr)) as A.
+    destruct (rest_kinds a rest (ctx_shape _ _ _ _ _ _ C) b Hr) as [Hf|[(l' & v' & ->)|(l' & ->)]].
+    + apply (frames_rel_ok_same s _ stk1 b Hf); [|apply (frame_ok_any_stk s stk stk1 b Hf); auto].
+      intros o n ->. rewrite !hobj_wt. destruct (Hcnt o) as (_ & -> & -> & _). split; auto. split; auto.
+      apply Hmemsame. eapply Hnotrel; eauto.
+    + cbn in A |- *. destruct A as (A1 & A2). split; auto. destruct l' as [i'|y j']; cbn in *; [lia|].
+      destruct (Hcnt y) as (-> & _). rewrite Hlenm. destruct l as [i|q j]; [|subst stk1; auto].
+      exfalso. eapply (Hsame _ y j' Hr). left; eauto.
+    + cbn in A |- *. destruct l' as [i'|y j']; cbn in *; [lia|].
+      destruct (Hcnt y) as (-> & _). rewrite Hlenm. destruct l as [i|q j]; [|subst stk1; auto].
+      exfalso. eapply (Hsame _ y j' Hr). right; eauto.
+  - intros z. right. rewrite !hobj_wt. destruct (Hcnt z) as (-> & -> & -> & _). auto.
+  - intros y. destruct (wq y) eqn:Ey.
+    + left. apply (Hwq y Ey).
+    + right. rewrite hobj_wt. apply Hmemsame; auto.
+  - intros y Hy. rewrite hobj_wt. apply Hlenm.
+  - intros z. right. rewrite E, td_cons, td_mk. pose proof (Bd z). lia.
+  - intros z. pose proof (wt_rels s t (mkThr stk1 todo' prog) h1 (s_pool s) z Ht) as HR. rewrite E in HR. cbn [t_todo] in HR.
+    rewrite rc_cons in HR. pose proof (Br z). rewrite hobj_wt. pose proof (i_rels K s I z) as HI. unfold hobj in HI.
+    unfold is_releasing in *. destruct (Hcnt z) as (_ & -> & _). lia.
+  - intros z Hz. rewrite Hlen1 in Hz. rewrite hobj_wt. pose proof (i_ghost K s I z Hz) as HG. unfold hobj, is_live in *.
+    destruct (Hcnt z) as (_ & -> & _ & -> & ->). auto.
+Qed.
+
+Definition dec_of (old : ref) : list act := match old with Some (q, true) => [ADec q] | _ => [] end.
+
+Lemma dec_of_unit : forall z old, sumf (act_unit z) (dec_of old) = cref z old.
+Proof. intros z [[q [|]]|]; cbn; auto. Qed.
+Lemma dec_of_debt : forall z old, sumf (act_debt z) (dec_of old) = 0.
+Proof. intros z [[q [|]]|]; cbn; auto. Qed.
+Lemma dec_of_rel : forall z old, sumf (rel_count z) (dec_of old) = 0.
+Proof. intros z [[q [|]]|]; cbn; auto. Qed.
+Lemma dec_of_frames : forall old, forallb is_frame (dec_of old) = true.
+Proof. intros [[q [|]]|]; cbn; auto. Qed.
+Lemma dec_of_ok : forall s stk old b, In b (dec_of old) -> act_ok s stk b.
+Proof. intros s stk [[q [|]]|] b H; cbn in H; try tauto. destruct H as [<-|[]]. exact Logic.I. Qed.
+
+Lemma act_take : forall s t stk l rest prog, ctx s t stk (ATake l) rest prog ->
+  forall h' stk' todo' p' ev, do_act N K (s_heap s) (s_pool s) stk (ATake l) rest = (h', stk', todo', p', ev) ->
+  inv1 K (with_thr s t (mkThr stk' todo' prog) h' p') /\ bad124 ev = false.
+Proof.
+  intros s t stk l rest prog C h' stk' todo' p' ev Hdo.
+  pose proof (ctx_shape _ _ _ _ _ _ C) as Hsh.
+  pose proof (ctx_act _ _ _ _ _ _ (ATake l) C (or_introl eq_refl)) as W. cbn in W.
+  cbn in Hdo. destruct (write_slot (s_heap s) stk l None) as [h1 stk1] eqn:Hw. inversion Hdo; subst; clear Hdo.
+  fold (dec_of (read_slot (s_heap s) stk l)). split; [|reflexivity].
+  assert (Hrest : rest = [] \/ exists v, rest = [AStore l v]).
+  { inversion Hsh as [fr Hf Ef|fr l0 v Hf Ef|q sr l0 Ef|q sr l0 Ef|l0 Ef|l0 v Ef|a Ha Ef]; subst; auto;
+      try (cbn in Hf; discriminate); try (right; eexists; reflexivity).
+    destruct fr as [|f fr]; cbn in Ef; [discriminate|]. inversion Ef; subst. cbn in Hf. discriminate. }
+  apply (write_core s t stk (ATake l) rest prog l None); auto.
+  - apply wloc_wjust; auto.
+  - intros z. rewrite sumf_app, dec_of_unit. cbn. lia.
+  - intros z. rewrite sumf_app, dec_of_debt. cbn. lia.
+  - intros z. rewrite sumf_app, dec_of_rel. cbn. lia.
+  - destruct Hrest as [->|(v & ->)].
+    + rewrite app_nil_r. apply sh_frames. apply dec_of_frames.
+    + apply sh_store. apply dec_of_frames.
+  - destruct l as [i|q j]; auto. intros b y j Hin Hb. destruct Hrest as [->|(v & ->)]; [destruct Hin|].
+    destruct Hin as [<-|[]]. destruct Hb as [(v' & Hb)|Hb]; discriminate.
+  - intros b Hin. apply in_app_or in Hin. destruct Hin as [Hin|Hin]; [right; eapply dec_of_ok; eauto|left; auto].
+Qed.
+
+Lemma act_store : forall s t stk l v rest prog, ctx s t stk (AStore l v) rest prog ->
+  forall h' stk' todo' p' ev, do_act N K (s_heap s) (s_pool s) stk (AStore l v) rest = (h', stk', todo', p', ev) ->
+  inv1 K (with_thr s t (mkThr stk' todo' prog) h' p') /\ bad124 ev = false.
+Proof.
+  intros s t stk l v rest prog C h' stk' todo' p' ev Hdo.
+  pose proof (ctx_shape _ _ _ _ _ _ C) as Hsh.
+  pose proof (ctx_act _ _ _ _ _ _ (AStore l v) C (or_introl eq_refl)) as W. cbn in W. destruct W as (W & NS).
+  cbn in Hdo. destruct (write_slot (s_heap s) stk l v) as [h1 stk1] eqn:Hw. inversion Hdo; subst; clear Hdo.
+  fold (dec_of (read_slot (s_heap s) stk l)). split; [|reflexivity].
+  assert (Hrest : rest = []).
+  { inversion Hsh as [fr Hf Ef|fr l0 v0 Hf Ef|q sr l0 Ef|q sr l0 Ef|l0 Ef|l0 v0 Ef|a Ha Ef]; subst; auto;
+      try (cbn in Hf; discriminate); try (cbn in Ha; tauto).
+    destruct fr as [|f fr]; cbn in Ef; [inversion Ef; auto|]. inversion Ef; subst. cbn in Hf. discriminate. }
+  subst rest. apply (write_core s t stk (AStore l v) [] prog l v); auto.
+  - apply wloc_wjust; auto.
+  - intros z. rewrite sumf_app, dec_of_unit. cbn. lia.
+  - intros z. rewrite sumf_app, dec_of_debt. cbn. lia.
+  - intros z. rewrite sumf_app, dec_of_rel. cbn. lia.
+  - rewrite app_nil_r. apply sh_frames. apply dec_of_frames.
+  - destruct l as [i|q j]; auto; intros b y j [].
+  - intros b Hin. rewrite app_nil_r in Hin. right; eapply dec_of_ok; eauto.
+Qed.
+
+
+(* ------------------------------------------------------------------ steps that only rewrite the todo list *)
+
+Lemma heap_same_ok : forall s s' stk b, s_heap s' = s_heap s ->
+  (forall o, b = AInc o None -> units o s' = units o s) -> act_ok s stk b -> act_ok s' stk b.
+Proof.
+  intros s s' stk b Eh Hu W. eapply act_ok_transfer; [|exact W].
+  destruct b; cbn; unfold hobj; rewrite ?Eh; auto.
+  - destruct src as [[i|q j]|]; cbn; unfold hobj; rewrite ?Eh; auto.
+  - destruct l; cbn; unfold hobj; rewrite ?Eh; auto.
+  - destruct l; cbn; unfold hobj; rewrite ?Eh; auto.
+  - destruct l; cbn; unfold hobj; rewrite ?Eh; auto.
+  - destruct l; cbn; unfold hobj; rewrite ?Eh; auto.
+Qed.
+
+Lemma todo_core : forall s t stk todo prog todo' prog' (d : nat -> nat),
+  inv1 K s -> t < length (s_thr s) -> thr s t = mkThr stk todo prog ->
+  (forall z, sumf (act_unit z) todo' = sumf (act_unit z) todo + d z) ->
+  (forall z, sumf (act_debt z) todo' = sumf (act_debt z) todo + d z) ->
+  (forall z, 0 < d z -> touch_c s t z /\ is_live (hobj s z) = true) ->
+  (forall z, sumf (rel_count z) todo' = sumf (rel_count z) todo) ->
+  shape todo' ->
+  (forall b, In b todo' -> act_ok (with_thr s t (mkThr stk todo' prog') (s_heap s) (s_pool s)) stk b) ->
+  forall p', inv1 K (with_thr s t (mkThr stk todo' prog') (s_heap s) p').
+Proof.
+  intros s t stk todo prog todo' prog' d I Ht E Bu Bd Hd Br Hsh Hown p'.
+  assert (Hunits : forall z, units z (with_thr s t (mkThr stk todo' prog') (s_heap s) p') = units z s + d z).
+  { intros z. pose proof (wt_units s t (mkThr stk todo' prog') (s_heap s) p' z Ht) as HU. rewrite E in HU.
+    rewrite !tu_mk in HU. pose proof (Bu z). lia. }
+  assert (Hdebts : forall z, debts z (with_thr s t (mkThr stk todo' prog') (s_heap s) p') = debts z s + d z).
+  { intros z. pose proof (wt_debts s t (mkThr stk todo' prog') (s_heap s) p' z Ht) as HD. rewrite E in HD.
+    rewrite !td_mk in HD. pose proof (Bd z). lia. }
+  apply assemble; [exact I|exact Ht|..].
+  - intros z. rewrite Hunits, Hdebts, hobj_wt. pose proof (i_count K s I z). unfold hobj in *. lia.
+  - intros z Hz. rewrite Hunits. rewrite hobj_wt in Hz. pose proof (i_nolive K s I z Hz).
+    destruct (d z) eqn:Ed; [lia|]. destruct (Hd z) as (_ & Hl); [lia|]. unfold hobj in *. congruence.
+  - intros z Hz. rewrite hobj_wt. apply (i_mem K s I z Hz).
+  - exact Hsh.
+  - intros b Hin. cbn [t_todo t_stk] in *. specialize (Hown b Hin).
+    exact Hown.
+  - intros z. right. rewrite !hobj_wt. auto.
+  - intros y. right. rewrite hobj_wt. auto.
+  - intros y Hy. rewrite hobj_wt. auto.
+  - intros z. destruct (d z) eqn:Ed.
+    + right. rewrite E, !td_mk. pose proof (Bd z). lia.
+    + left. apply Hd. lia.
+  - intros z. pose proof (wt_rels s t (mkThr stk todo' prog') (s_heap s) p' z Ht) as HR. rewrite E in HR. cbn [t_todo] in HR.
+    rewrite hobj_wt. pose proof (i_rels K s I z) as HI. unfold hobj in HI. pose proof (Br z). lia.
+  - intros z Hz. rewrite hobj_wt. apply (i_ghost K s I z Hz).
+Qed.
+
+Lemma act_untag : forall s t stk l rest prog, ctx s t stk (AUntag l) rest prog ->
+  forall h' stk' todo' p' ev, do_act N K (s_heap s) (s_pool s) stk (AUntag l) rest = (h', stk', todo', p', ev) ->
+  inv1 K (with_thr s t (mkThr stk' todo' prog) h' p') /\ bad124 ev = false.
+Proof.
+  intros s t stk l rest prog C h' stk' todo' p' ev Hdo.
+  pose proof (ctx_shape _ _ _ _ _ _ C) as Hsh.
+  pose proof (ctx_act _ _ _ _ _ _ (AUntag l) C (or_introl eq_refl)) as W. cbn in W.
+  pose proof C as [I Ht E].
+  assert (Hrest : rest = []).
+  { inversion Hsh as [fr Hf Ef|fr l0 v0 Hf Ef|q sr l0 Ef|q sr l0 Ef|l0 Ef|l0 v0 Ef|a Ha Ef]; subst; auto;
+      try (cbn in Hf; discriminate).
+    destruct fr as [|f fr]; cbn in Ef; [discriminate|]. inversion Ef; subst. cbn in Hf. discriminate. }
+  subst rest. cbn in Hdo.
+  assert (Hnoop : inv1 K (with_thr s t (mkThr stk [] prog) (s_heap s) (s_pool s))).
+  { apply (todo_core s t stk [AUntag l] prog [] prog (fun _ => 0)); auto.
+    - intros z Hz. lia.
+    - apply (sh_frames []). reflexivity.
+    - intros b []. }
+  destruct (read_slot (s_heap s) stk l) as [[q [|]]|] eqn:Hrd.
+  - destruct (write_slot (s_heap s) stk l (Some (q, false))) as [h1 stk1] eqn:Hw. inversion Hdo; subst; clear Hdo.
+    split; [|reflexivity].
+    apply (write_core s t stk (AUntag l) [] prog l (Some (q, false))); auto.
+    + apply wloc_wjust; auto.
+    + intros z. rewrite Hrd. cbn. unfold eq1. lia.
+    + apply (sh_frames [ADecKeep q]). reflexivity.
+    + destruct l as [i|q' j]; auto; intros b y j [].
+    + intros b [<-|[]]. right. exact Logic.I.
+  - inversion Hdo; subst; clear Hdo. split; [exact Hnoop|reflexivity].
+  - inversion Hdo; subst; clear Hdo. split; [exact Hnoop|reflexivity].
 Qed.
 
 End Acts.
